@@ -36,6 +36,7 @@ type Session struct {
 	nquery int
 	dead   bool
 	log    *os.File
+	total  time.Duration
 }
 
 func solverPath(name string) string {
@@ -65,7 +66,7 @@ func NewSession() *Session {
 	if p := os.Getenv("GCV_SESSION_LOG"); p != "" {
 		s.log, _ = os.Create(p)
 	}
-	s.send("(set-option :rlimit 400000)\n(set-option :timeout 1500)\n")
+	s.send(fmt.Sprintf("(set-option :timeout %d)\n", envInt("GCV_SESSION_TIMEOUT_MS", 250)))
 	s.send(prelude)
 	return s
 }
@@ -101,8 +102,17 @@ func (s *Session) CheckWith(extra *Term) Verdict {
 		return Unknown
 	}
 	s.nquery++
+	t0 := time.Now()
 	s.send("(push 1)\n(assert " + extra.s + ")\n(check-sat)\n(pop 1)\n")
 	line, err := s.out.ReadString('\n')
+	s.total += time.Since(t0)
+	if d := time.Since(t0); d > 300*time.Millisecond && os.Getenv("GCV_TRACE") != "" {
+		h := extra.s
+		if len(h) > 160 {
+			h = h[:160]
+		}
+		fmt.Fprintf(os.Stderr, "slow session query #%d %.2fs -> %s: %s\n", s.nquery, d.Seconds(), strings.TrimSpace(line), h)
+	}
 	if err != nil {
 		s.dead = true
 		return Unknown
